@@ -150,6 +150,30 @@ def apalache_inductive(rd, module, init="Init", indinit="IndInit", inv="IndInv",
     return dict(ok=ok, steps=steps)
 
 
+def tlaps(rd, module, timeout=900, threads=8):
+    """Checks a TLAPS proof module with tlapm (fresh cache).  Returns dict(ok, obligations, wall_s); ok is None
+    when tlapm is missing or did not finish - that decides nothing (the proofs are about design-level modules)."""
+    d = stage_specs(rd)
+    exe = shutil.which("tlapm")
+    if not exe:
+        return dict(ok=None, note="tlapm not on PATH")
+    shutil.rmtree(os.path.join(d, ".tlacache", module + ".tlaps"), ignore_errors=True)
+    e = dict(os.environ)
+    e.pop("JAVA_TOOL_OPTIONS", None)
+    t0 = time.time()
+    try:
+        p = sh([exe, "--threads", str(threads), "--cleanfp", module + ".tla"], cwd=d, env=e, timeout=timeout, check=False)
+    except subprocess.TimeoutExpired:
+        return dict(ok=None, note="tlapm timed out")
+    m = re.search(r"All (\d+) obligations? proved", p.stdout)
+    if m:
+        return dict(ok=True, obligations=int(m.group(1)), wall_s=round(time.time() - t0, 1))
+    m = re.search(r"(\d+)/(\d+) obligations failed", p.stdout)
+    if m:
+        return dict(ok=False, obligations=int(m.group(2)), failed=int(m.group(1)), wall_s=round(time.time() - t0, 1))
+    return dict(ok=None, note=p.stdout[-800:])
+
+
 _summary_re = re.compile(r"(\d+) states generated, (\d+) distinct states found")
 
 
